@@ -500,6 +500,20 @@ def check_macros(ctx, n):
             ctx.report("C08:macro-expansion", "macro uses in active code are not replaced by their bodies character for character",
                        {"kind": "counterexample", "input": {"lines": lines, "pp_defs": {}},
                         "implementation": err or out[len(lines) - len(uses):], "oracle": want})
+    # a name defined again after #undef, with another kind or other parameters (fixed)
+    for lines, want in ((["#define N 1", "x = N", "#undef N", "#define N(a) a+1", "y = N(2)"], ["x = 1", "y = 2+1"]),
+                        (["#define F(a) a+1", "x = F(1)", "#undef F", "#define F(b) b*2", "y = F(2)"], ["x = 1+1", "y = 2*2"]),
+                        (["#define F(a) a+1", "x = F(1)", "#undef F", "#define F 7", "y = F"], ["x = 1+1", "y = 7"]),
+                        (["#define N 1", "x = N", "#undef N", "#define N 2", "y = N"], ["x = 1", "y = 2"])):
+        try:
+            out, _, _, _ = preprocess_file(list(lines), pp_defs={})
+            got = [out[1], out[4]]
+        except Exception as ex:      # noqa: BLE001
+            got = repr(ex)
+        ctx.count(("macro-redefined", tuple(lines)), True)
+        if got != want:
+            ctx.report("C08:redefined-after-undef", "a macro defined again after #undef is not expanded by its new definition",
+                       {"kind": "counterexample", "input": {"lines": lines, "pp_defs": {}}, "implementation": got, "oracle": want})
     # regression (fixed): several calls of a function-like macro on one line
     lines = ["#define F(a,b) (a+b)", "x = F(1,2) * F(3,4)"]
     out, _, _, _ = preprocess_file(list(lines), pp_defs={})
@@ -511,7 +525,10 @@ def check_macros(ctx, n):
 
 EXPAND_IMPORTS = ("From FV Require Import Base.Str C08.Expand.\n"
                   "Definition ex (t : list (str * str)) (l : str) : str := expand ascii_word t l.\n"
-                  "Definition exo (t : list (str * str)) (l : str) : str := expand_objects ascii_word t l.\n")
+                  "Definition exo (t : list (str * str)) (l : str) : str := expand_objects ascii_word t l.\n"
+                  "From FV Require C08.Args.\n"
+                  "Definition call_eqb (ps : list str) (body s want : str) : bool :=\n"
+                  "  match Args.expand_call ascii_word ps body s with Some r => str_eqb r want | None => false end.\n")
 
 
 def check_expand_model(ctx, n):
@@ -549,11 +566,13 @@ def check_expand_model(ctx, n):
                 continue
             ctx.count(("expand", tuple(src)), any(nm in line for nm in chosen))
             exprs.append("str_eqb (exo %s %s) %s" % (clist([(nm, tab[nm]) for nm in chosen], lambda kv: pair(*kv)), cstr(line), cstr(out[-1])))
-            meta.append({"lines": src, "implementation": out[-1]})
+            bodies = {nm: tab[nm] for nm in chosen}
+            simple = not any(n2 in b for b in bodies.values() for n2 in names)
+            meta.append({"lines": src, "implementation": out[-1], "oracle": ref_expand(line, bodies, {}) if simple else None})
         else:
             params = rng.choice([["u", "v"], ["u", "v"], ["a", "bb"], ["x"]])
             body = rng.choice(["(u+v)", "v - u", "foo(u, v)", "u*uv+v_u", "a%bb(a)", "x.x x", "u\\v", "uu", "bb a bb"])
-            args = [rng.choice(["1", "a", "b+3", "u", "v", "x y", " c ", "bb", "uv"]) for _ in params]
+            args = [rng.choice(["1", "a", "b+3", "u", "v", "x y", " c ", "bb", "uv", "g(1,2)", "'a,b'", "(/ 1, 2 /)", "h(k(1), 2)", "[1,2]", "\"x)\"", "'('", "a(u)%v"]) for _ in params]
             pre, post = rng.choice(["z = ", "call s(", ""]), rng.choice(["", " + 1", ") ! t"])
             src = ["#define FN(%s) %s" % (",".join(params), body), pre + "FN(" + ",".join(args) + ")" + post]
             try:
@@ -566,11 +585,19 @@ def check_expand_model(ctx, n):
                 continue
             ps = [a.strip() for a in val[0].split(",")]
             ctx.count(("expand-fun", tuple(src)), True)
-            exprs.append("str_eqb (%s ++ ex %s %s ++ %s) %s" % (cstr(pre), clist(list(zip(ps, args)), lambda kv: pair(*kv)), cstr(val[1]), cstr(post), cstr(out[-1])))
-            meta.append({"lines": src, "implementation": out[-1]})
+            if not out[-1].startswith(pre):
+                ctx.report("C08:macro-expansion", "the text in front of a macro call changed", {"kind": "counterexample", "input": {"lines": src, "pp_defs": {}}, "implementation": out[-1]})
+                continue
+            exprs.append("call_eqb %s %s %s %s" % (clist(ps, cstr), cstr(val[1]), cstr(",".join(args) + ")" + post), cstr(out[-1][len(pre):])))
+            meta.append({"lines": src, "implementation": out[-1], "oracle": ref_expand(src[-1], {}, {"FN": (ps, val[1])})})
     bad = coq.bools(exprs, shard=400)
     ctx.cov["traces_validated_against_impl"] = ctx.cov.get("traces_validated_against_impl", 0) + len(exprs)
     for b in bad[:3]:
+        if meta[b]["oracle"] is not None and meta[b]["oracle"] != meta[b]["implementation"]:
+            # the broken correspondence comes with an input on which the reference preprocessor disagrees as well
+            ctx.report("C08:macro-expansion", "macro uses in active code are not replaced by their bodies character for character (found through C08.Expand/Args)",
+                       {"kind": "counterexample", "input": {"lines": meta[b]["lines"], "pp_defs": {}}, "implementation": meta[b]["implementation"], "oracle": meta[b]["oracle"]})
+            continue
         ctx.report("C08:expand-model-mismatch", "preprocess_file substitutes a macro differently from C08.Expand (whole-word scan) on %r" % (meta[b]["lines"],),
                    {"kind": "broken-correspondence", "input": dict(meta[b], pp_defs={}), "correspondence": "FV.C08.Expand.expand vs preprocess_file"}, found_input=False)
 
